@@ -8,8 +8,8 @@ from ..srcmodel import AnalysisError, call_name, get_arg, norm, own_nodes, param
 
 
 # ------------------------------------------------------------------------------------------ C11 table
-@rule("R11", ["C11"], "each documented misuse has a raising guard that dominates the effect it must prevent")
-def r11(cx):
+@rule("R11a", ["C11"], "allocate_on_buffer, evaluated: offset without buffer and foreign-context buffer refused before anything is created or allocated; placement modes; explicit offsets used as given")
+def r11a(cx):
     m = cx.m
     # ---- allocate_on_buffer (evaluated on recording contexts/buffers)
     from ..peval import Interp, Obj as _Obj, Opaque as _Op, Builtin as _B, Sym as _Sym
@@ -113,6 +113,12 @@ def r11(cx):
         cx.check(not why, None, construct=f"allocate_on_buffer(size, context={'None' if ctx_sel == 'none' else 'A'}, buffer=None): new buffer on the context, allocate(size) on it", detail="fresh buffer, then the allocation",
                  bad_detail=why, anchor="typeutils::allocate_on_buffer", sub="modes")
     cx.need(ncase >= 18, f"only {ncase} allocate_on_buffer cases")
+    cx.note(None, detail="(the remaining misuse classes are rule R11)")
+
+
+@rule("R11", ["C11"], "each documented misuse has a raising guard that dominates the effect it must prevent (diagnostic shapes for Array._update / construction / unions)")
+def r11(cx):
+    m = cx.m
     # ---- Array._update: length comparison, both arms of the mismatch raise
     f = m.func("array::Array._update")
     fl = Flow(f)
